@@ -210,6 +210,63 @@ pub fn run(cfg: &Cfg, rep: &mut Report) {
             }
         }
     });
+    // Spellings the generator grammar does not contain because 488.2 support for them is optional in this library (white
+    // space around the exponent mark, 7.7.2.2): whatever the lexer hands out as ONE decimal element is a "decimal literal
+    // the lexer accepts" and must convert to the value it denotes; if the lexer refuses or splits it there is no verdict.
+    let n = cfg.n(20, 400_000, 40_000_000);
+    run_cases(cfg, "spaced-exponent", n, rep, |rng, ctx| {
+        bump(ctx, 1);
+        let plain = loop {
+            let l = float_literal(rng);
+            if l.len() < 60 && l.bytes().any(|c| c == b'e' || c == b'E') {
+                break l;
+            }
+        };
+        let epos = plain.bytes().position(|c| c == b'e' || c == b'E').unwrap();
+        let ws = |rng: &mut Rng| -> String { (0..1 + rng.usize(2)).map(|_| if rng.bool() { ' ' } else { '\t' }).collect() };
+        let mut spaced = String::new();
+        spaced.push_str(&plain[..epos]);
+        let where_ = rng.usize(3);
+        if where_ != 0 {
+            spaced.push_str(&ws(rng));
+        }
+        spaced.push_str(&plain[epos..epos + 1]);
+        if where_ != 1 {
+            spaced.push_str(&ws(rng));
+        }
+        spaced.push_str(&plain[epos + 1..]);
+        ctx.nontrivial(hash_str(&spaced));
+        // lex up to the first error (never past it)
+        let mut tz = Tokenizer::new_params(spaced.as_bytes());
+        let first = tz.next();
+        let one_element = match first {
+            Some(Ok(Token::DecimalNumericProgramData(s))) if s == spaced.as_bytes() => matches!(tz.next(), None),
+            _ => false,
+        };
+        if !one_element {
+            ctx.count("spaced-exponent.not-one-decimal-element(no verdict)");
+            return;
+        }
+        ctx.count("spaced-exponent.accepted-by-lexer");
+        let t = Token::DecimalNumericProgramData(spaced.as_bytes());
+        let (w64, w32): (f64, f32) = (plain.parse().unwrap(), plain.parse().unwrap());
+        let g64 = f64::try_from(t);
+        let g32 = f32::try_from(t);
+        if !matches!(g64, Ok(g) if g.to_bits() == w64.to_bits()) || !matches!(g32, Ok(g) if g.to_bits() == w32.to_bits()) {
+            ctx.violation("C08:lexer-accepted-spaced-exponent-not-correctly-rounded", jobj(&[("literal", jstr(&spaced)), ("f64", jstr(&format!("{:?}", g64.map(|g| g.to_bits()).map_err(|e| e.get_code())))), ("f32", jstr(&format!("{:?}", g32.map(|g| g.to_bits()).map_err(|e| e.get_code())))), ("reference_f64_bits", w64.to_bits().to_string()), ("reference_f32_bits", w32.to_bits().to_string())]));
+        }
+        if let Some(d) = parse_nrf(plain.as_bytes()) {
+            let h = d.cmp_half();
+            let ok = match (bool::try_from(t), h) {
+                (Ok(false), x) if x <= 0 => true,
+                (Ok(true), x) if x >= 0 => true,
+                _ => false,
+            };
+            if !ok {
+                ctx.violation("C08:lexer-accepted-spaced-exponent:bool-wrong", jobj(&[("literal", jstr(&spaced))]));
+            }
+        }
+    });
     let n = cfg.n(50, 1_500_000, 240_000_000);
     run_cases(cfg, "bool", n, rep, |rng, ctx| {
         let lit = match rng.usize(8) {
